@@ -78,6 +78,9 @@ func propC07(c *Ctx, r *Report) {
 	r.Clauses = append(r.Clauses, "matrix layout through arrays (E13): every site of the SPIR-V backend that emits a MatrixStride member decoration found its matrix by unwrapping array types in a loop (all nesting levels), not once")
 	c.runSeeThrough(r, "layout.seethrough")
 	r.floor("layout.seethrough", 2)
+	r.Clauses = append(r.Clauses, roundUpClause+" - here: member offsets, struct spans and array strides in the lowerer and the alignment helpers of the backends")
+	c.runRoundUp(r, "arith.roundup", inPkgs("wgsl/internal/lower", "ir", "hlsl", "msl", "glsl", "spirv"), "arith.roundup")
+	r.floor("arith.roundup", 8)
 	r.inst("layout.fields", n)
 	r.floor("layout.fields", 12)
 }
